@@ -17,7 +17,7 @@ def load_corpus(prop):
 
 
 def run_coexec(prop, tier, seed, *, module, theorems, gen_cases, nontrivial, rule,
-               engines, known=None, extra_obligations=None, stats=None):
+               engines, known=None, extra_obligations=None, stats=None, extra_cov=None):
     """gen_cases(rng, tier) -> list of cases; engines: list of Engine; nontrivial(case)->bool.
     known(case, impl_obs, model_obs) -> finding-id or None (known findings, DESIGN section 5)."""
     t0 = time.time()
@@ -46,18 +46,18 @@ def run_coexec(prop, tier, seed, *, module, theorems, gen_cases, nontrivial, rul
             payload["original_case"] = cases[i]
             payload["disagreeing_cases_in_run"] = len(real_bad)
             path = C.write_replay(prop, seed, payload)
-            write_ev(prop, tier, seed, obligations, cases, nontrivial, rule, total, t0, 1, engines, stats, corr_ok=False)
+            write_ev(prop, tier, seed, obligations, cases, nontrivial, rule, total, t0, 1, engines, stats, corr_ok=False, extra_cov=extra_cov)
             C.violation(prop, path)
             return 1
     for f in C.known_findings().get("known", []):
         if f["property"] == prop and f["id"] in known_hits:
             print(f"KNOWN-FINDING: property={prop} {f['what']} ({known_hits[f['id']]} cases of this run)")
-    write_ev(prop, tier, seed, obligations, cases, nontrivial, rule, total, t0, 0, engines, stats, corr_ok=True)
+    write_ev(prop, tier, seed, obligations, cases, nontrivial, rule, total, t0, 0, engines, stats, corr_ok=True, extra_cov=extra_cov)
     print(f"{prop}: {len(obligations)} theorems closed; {total} co-executions agree ({time.time()-t0:.1f}s)")
     return 0
 
 
-def write_ev(prop, tier, seed, obligations, cases, nontrivial, rule, total, t0, violations, engines, stats, corr_ok):
+def write_ev(prop, tier, seed, obligations, cases, nontrivial, rule, total, t0, violations, engines, stats, corr_ok, extra_cov=None):
     distinct = {}
     for c in cases:
         distinct.setdefault(canon(c), c)
@@ -77,6 +77,8 @@ def write_ev(prop, tier, seed, obligations, cases, nontrivial, rule, total, t0, 
         "samples": [K.harness_line(c, "sample") for c in list(distinct.values())[:3]],
         "distribution": (stats(cases) if stats else {}),
     }
+    if extra_cov:
+        cov.update(extra_cov)
     C.write_evidence(prop, tier, seed, cov, time.time() - t0, violations,
                      assumptions=["model/implementation agreement is established on the generated cases only"])
 
